@@ -172,8 +172,10 @@ class ModelRegistry:
 
         replaces = []
         replaces_ids = set()
+        # Sets of models are iterated in hash order; merge members in registration order instead
+        order = {index: i for i, index in enumerate(self._registry)}
         for group in groups:
-            model_meta = self._merge(generator, *group)
+            model_meta = self._merge(generator, *sorted(group, key=lambda m: order[m.index]))
             generator.optimize_type(model_meta)
             replaces_ids.add(model_meta.index)
             replaces.append((model_meta, group))
